@@ -8,3 +8,11 @@ open MtailVerif.C01
 #print axioms bit_operator_table
 #print axioms not_operator
 #print axioms int_comparison_table
+#print axioms string_plus_is_concatenation
+#print axioms conversion_int_to_float
+#print axioms conversion_int_to_string
+#print axioms conversion_string_to_int
+#print axioms string_comparison_table
+#print axioms float_comparison_table
+#print axioms and_short_circuits
+#print axioms or_short_circuits
